@@ -79,8 +79,9 @@ def indexKeyOf (kind : PKind) (key : Bytes) : Option Bytes :=
   match kind with
   | .mh => mhDecode key
   | .cid =>
+    -- the repaired CIDPrimary.IndexKey rejects bytes after the CID (KNOWN_FINDINGS D30)
     match cidRead key with
-    | some (_, dig, _) => some dig
+    | some (_, dig, n) => if n = key.length then some dig else none
     | none => none
 
 /-- readNode: split stored record data into key bytes and value -/
